@@ -132,3 +132,6 @@ def check(case, ctx):
 
 SUBS = [Sub("immutability", check, strategy=case, quick=12000, thorough=150000)]
 KNOWN = {}
+
+# cases at scale (see pv/scale.py)
+RULE += scale.RULE
